@@ -37,6 +37,7 @@ PROPS["C03"] = dict(
          "collection with >=2 members met during evaluation, TLC outcome not an error; distinct by rendered expression.",
     runs=[
         dict(test="TestC03Expr", quick=dict(checks=160000, shards=16, timeout=600), thorough=dict(checks=4000000, shards=16, timeout=3000)),
+        dict(test="TestC03Containers", quick=dict(checks=24000, shards=8, timeout=300), thorough=dict(checks=1600000, shards=16, timeout=2400)),
         dict(test="TestC03TLC", late=True, quick=dict(checks=1500, shards=1, timeout=600), thorough=dict(checks=40000, shards=1, timeout=3000)),
         dict(test="FuzzC03", kind="fuzz", late=True, thorough=dict(checks=1, shards=1, fuzztime="420s", parallel=16, timeout=900)),
     ],
@@ -351,5 +352,26 @@ PROPS["C17"] = dict(
          "observed blocked inside Stop while a resource's Close was held at its gate; distinct by rendered scenario.",
     runs=[
         dict(test="TestC17Lifecycle", race={"thorough": True}, quick=dict(checks=16000, shards=16, timeout=300), thorough=dict(checks=320000, shards=16, timeout=3000)),
+    ],
+)
+
+PROPS["C18"] = dict(
+    pkg="c18", level="exploration",
+    technique="property-based testing (rapid): generated programs and relays of 2-4 concurrently running archetypes (Go channels, TCP mailboxes, shared variables, fault plans) "
+              "on the real Run loop with tracing on; the runtime's events (in-memory recorder or the JSON file of PGO_TRACE_DIR) are compared with the interpreter's own log and with two model vector clocks",
+    level_text="One archetype over a generated resource mix, and chains A->B->C->D whose hops are Go channels / TCP mailboxes / shared variables plus extra shared variables in any direction, "
+               "all run concurrently. Ground truth: every iface.Read/Write the interpreter issued per attempt and the attempt's outcome told by the control flow alone. Checked: one event per "
+               "attempt in order with isAbort; elements = .pc read + performed ops + .pc write, names/indices/values (Equal and printed); old-value hints; replay of committed local writes "
+               "reproduces logged local reads; own clock component = attempt ordinal; write-time stamp of the writer <= reader's clock <= causal upper bound; ~1/6 of cases through the real file recorder.",
+    level_note="Every written value is a unique token, which identifies its writer. Whether a reader must also dominate what the writer learnt after its write in the same section is not asserted; "
+               "it is measured (classes reads.writer-learnt-more-after-the-write, restricted.*). Procedure calls (.stack) and Stop mid-section are not exercised. The process is started with "
+               "PGO_TRACE_DIR because causal wrapping is decided at package init.",
+    rule="Relay: >=3 archetypes, a middle one has an attempt that aborted after reading another archetype's value, and some writer read something after a write to a link in the same section; "
+         "Single: an aborted attempt with >=1 write and a later chained write to the same local (or function key) in that attempt; distinct by rendered programs.",
+    runs=[
+        dict(test="TestC18Single", env={"PGO_TRACE_DIR": "@TMP/trace"}, quick=dict(checks=3600, shards=6, timeout=300), thorough=dict(checks=360000, shards=16, timeout=3000)),
+        dict(test="TestC18Relay", env={"PGO_TRACE_DIR": "@TMP/trace"}, quick=dict(checks=3600, shards=6, timeout=300), thorough=dict(checks=360000, shards=16, timeout=3000)),
+        dict(test="TestC18RelayTCP", env={"PGO_TRACE_DIR": "@TMP/trace"}, quick=dict(checks=128, shards=4, timeout=300), thorough=dict(checks=12800, shards=16, timeout=3000)),
+        dict(test="TestC18Relay", env={"PGO_TRACE_DIR": "@TMP/trace"}, race={"thorough": True}, thorough=dict(checks=32000, shards=16, timeout=3000)),
     ],
 )
